@@ -1,13 +1,14 @@
 package props
 
 import (
+	"encoding/base64"
+	"fmt"
+	"github.com/ethereum/go-ethereum/common"
+	"os"
 	"strings"
+	"testing"
 	"unicode"
 	"unicode/utf8"
-	"os"
-	"github.com/ethereum/go-ethereum/common"
-	"fmt"
-	"testing"
 
 	"github.com/google/go-cmp/cmp"
 	"github.com/google/go-cmp/cmp/cmpopts"
@@ -187,7 +188,7 @@ func TestC10_Injection(t *testing.T) {
 		}
 		classes := []string{"raw", "short", "signedgarbage", "wrongchain"}
 		if len(executed) > 0 {
-			classes = append(classes, "replay", "replay")
+			classes = append(classes, "replay", "replay", "sig-transplant", "sig-transplant")
 		}
 		if len(foreign) > 0 {
 			classes = append(classes, "foreign", "foreign", "foreign")
@@ -223,6 +224,28 @@ func TestC10_Injection(t *testing.T) {
 			validSig = true
 		case "replay":
 			tx = rapid.SampledFrom(executed).Draw(rt, "rp")
+			validSig = true
+		case "sig-transplant":
+			// the 65 signature bytes of a transaction that was executed earlier in this process, in front of
+			// a different payload: whoever that recovers to, it is not the original signer
+			src := rapid.SampledFrom(executed).Draw(rt, "tsrc")
+			raw, err := base64.RawURLEncoding.DecodeString(string(src))
+			if err != nil || len(raw) < 65 {
+				rt.Skip("source transaction has no signature")
+			}
+			saved := c.M
+			c.M = pre.M
+			ms := c.genSender(rt)
+			msg, _ := c.genMessage(rt, ms)
+			c.M = saved
+			payload, err := proto.Marshal(&shmsg.MessageWithNonce{Msg: msg, ChainId: []byte(apphist.ChainID), RandomNonce: injNonce})
+			if err != nil {
+				rt.Skip("payload does not marshal")
+			}
+			tx = []byte(base64.RawURLEncoding.EncodeToString(append(append([]byte{}, raw[:65]...), payload...)))
+			if d := apphist.Decode(tx); d.OK && pre.M.IsMemberAny(d.Signer) {
+				rt.Skip("transplanted signature recovers to a member") // (probability ~2^-160)
+			}
 			validSig = true
 		case "member-payload":
 			// bring the generator's model to the injection point so that payloads aim at the live eons/configs
@@ -370,6 +393,17 @@ func TestC10_Injection(t *testing.T) {
 				delete(m, injNonce)
 				if len(m) == 0 {
 					delete(appB.NonceTracker.RandomNonces, a)
+				}
+			}
+		}
+		if class == "sig-transplant" && mode != "check" {
+			// the (recovered address, nonce) bookkeeping entry of the refused transaction
+			if d := apphist.Decode(tx); d.OK {
+				if m := appB.NonceTracker.RandomNonces[d.Signer]; m != nil {
+					delete(m, d.Msg.RandomNonce)
+					if len(m) == 0 {
+						delete(appB.NonceTracker.RandomNonces, d.Signer)
+					}
 				}
 			}
 		}
